@@ -216,6 +216,97 @@ def _run_shard(args):
     return dict(sub=subname, shard=shard, failure=failure, **_pack(ctx), wall=time.time() - t0)
 
 
+def _shard_child(job, conn):
+    try:
+        import faulthandler
+        faulthandler.enable()          # a crash in native code leaves its Python stack on stderr
+    except Exception:  # noqa: BLE001
+        pass
+    try:
+        conn.send(_run_shard(job))
+    finally:
+        conn.close()
+
+
+def _run_shard_fresh(job):
+    """the same shard in a fresh interpreter (other address-space layout, nothing inherited from this process)"""
+    import pickle
+    import subprocess
+    import tempfile
+    fd, out = tempfile.mkstemp(prefix="twv-shard-", suffix=".pkl")
+    os.close(fd)
+    try:
+        c = subprocess.run([sys.executable, "-X", "faulthandler", "-m", "twv", "--shard", json.dumps(list(job)), out],
+                           cwd=VERIF, capture_output=True, text=True)
+        if c.returncode == 0 and os.path.getsize(out) > 0:
+            with open(out, "rb") as f:
+                return pickle.load(f), None
+        return None, f"exit code {c.returncode}; stderr tail: {c.stderr[-1500:]}"
+    finally:
+        try:
+            os.unlink(out)
+        except OSError:
+            pass
+
+
+def _run_jobs(jobs, nproc):
+    """One forked process per shard (fresh state for every shard), at most `nproc` at a time.  A worker that dies
+    without delivering its result (killed by the OOM killer, a crash in native code) is started once more; if it
+    dies again the shard is reported as a harness error - the run never waits for a result that cannot come."""
+    from multiprocessing.connection import wait as mp_wait
+    ctxm = multiprocessing.get_context("fork")
+    pending = [(i, job, 0) for i, job in enumerate(jobs)]
+    running = {}
+    results = [None] * len(jobs)
+
+    def finish(i, res):
+        p, r, job, attempt = running.pop(i)
+        p.join(5)
+        r.close()
+        if res is None:
+            code = p.exitcode
+            if attempt == 0:
+                pending.insert(0, (i, job, 1))
+                return
+            # died twice as a fork of this process: once more in a fresh interpreter
+            res, why = _run_shard_fresh(job)
+            if res is not None:
+                results[i] = res
+                return
+            results[i] = dict(sub=job[1], shard=job[4], evaluations=0, nontrivial=[], classes={}, samples={}, counters={},
+                              wall=0.0, harness_error=f"worker for {job[1]} shard {job[4]} died twice without a result "
+                                                      f"(exit code {code}) and again in a fresh interpreter ({why})")
+        else:
+            results[i] = res
+
+    while pending or running:
+        while pending and len(running) < nproc:
+            i, job, attempt = pending.pop(0)
+            r, w = ctxm.Pipe(duplex=False)
+            p = ctxm.Process(target=_shard_child, args=(job, w), daemon=False)
+            p.start()
+            w.close()
+            running[i] = (p, r, job, attempt)
+        mp_wait([v[1] for v in running.values()] + [v[0].sentinel for v in running.values()], timeout=1.0)
+        for i in list(running):
+            p, r, job, attempt = running[i]
+            if r.poll():
+                try:
+                    res = r.recv()
+                except (EOFError, OSError):
+                    res = None
+                finish(i, res)
+            elif not p.is_alive():
+                res = None
+                if r.poll():
+                    try:
+                        res = r.recv()
+                    except (EOFError, OSError):
+                        res = None
+                finish(i, res)
+    return results
+
+
 def _pack(ctx):
     r = ctx.result()
     return dict(evaluations=r["evaluations"], nontrivial=sorted(r["nontrivial"]), classes=dict(r["classes"]),
@@ -421,6 +512,13 @@ def main(argv=None):
     if not argv:
         print("usage: check <ID> quick|thorough | check <ID> --replay <file>")
         return 2
+    if argv[0] == "--shard":
+        # internal: one shard in a fresh interpreter (see _run_shard_fresh); result pickled to argv[2]
+        import pickle
+        res = _run_shard(tuple(json.loads(argv[1])))
+        with open(argv[2], "wb") as f:
+            pickle.dump(res, f)
+        return 0
     prop = argv[0].upper()
     modname = f"twv.props.{prop.lower()}"
     t0 = time.time()
@@ -528,9 +626,7 @@ def main(argv=None):
         if nproc <= 1 or os.environ.get("TWV_SERIAL"):
             results = [_run_shard(j) for j in jobs]
         else:
-            ctxm = multiprocessing.get_context("fork")
-            with ctxm.Pool(nproc, maxtasksperchild=1) as pool:
-                results = pool.map(_run_shard, jobs, chunksize=1)
+            results = _run_jobs(jobs, nproc)
 
     per_sub = collections.OrderedDict()
     for r in reg_ctx_results + results:
